@@ -1101,6 +1101,22 @@ def r_ret(ctx):
             continue
         src = L
         sorted_ok = False
+        # candidates routed through a numpy string array of FIXED width are cut to that width
+        fixed = None
+        for x in walk_term(L):
+            if x[0] == 'call' and x[1][0] == 'g' and x[1][1].startswith('numpy.'):
+                dt = dict(x[3]).get('dtype')
+                while dt is not None and dt[0] == 'bin' and dt[1] == '+':
+                    dt = dt[2]
+                if dt is not None and dt[0] == 'c' and isinstance(dt[1], str) and dt[1].lstrip('<>=|')[:1] in ('U', 'S', 'a') and \
+                        (dict(x[3]).get('dtype')[0] == 'bin' or dt[1].lstrip('<>=|')[1:].isdigit()):
+                    fixed = x
+        if fixed is not None:
+            run.refute('R-RET', f, role + ':candidates-unaltered', nd.lineno,
+                       'the candidates pass through %s, a string array of fixed width: every candidate longer than that width (a repair '
+                       'by insertion is one nucleotide longer than the observed strand) is silently cut, after it passed the check'
+                       % show(fixed)[:80], inputs='strands that lost a nucleotide, has_indel=True')
+            continue
         if is_call(src, 'builtins.sorted') and len(src[2]) == 1:
             sorted_ok = True
             src = src[2][0]
